@@ -489,11 +489,23 @@ class MockIncludeDirective:
             )
             return codeblock.run()
 
+        # guard against circular inclusion
+        include_stack: list[str] = self.renderer.md_env.setdefault(
+            "include_stack", [str(Path(self.document["source"]).absolute())]
+        )
+        if str(path) in include_stack:
+            raise DirectiveError(
+                4,
+                f'Directive "{self.name}": circular inclusion: '
+                f'{" > ".join([*include_stack, str(path)])}',
+            )
+
         # Here we perform a nested render, but temporarily setup the document/reporter
         # with the correct document path and lineno for the included file.
         source = self.renderer.document["source"]
         rsource = self.renderer.reporter.source
         line_func = getattr(self.renderer.reporter, "get_source_and_line", None)
+        include_stack.append(str(path))
         try:
             self.renderer.document["source"] = str(path)
             self.renderer.reporter.source = str(path)
@@ -514,6 +526,7 @@ class MockIncludeDirective:
                 heading_offset=self.options.get("heading-offset", 0),
             )
         finally:
+            include_stack.pop()
             self.renderer.document["source"] = source
             self.renderer.reporter.source = rsource
             self.renderer.md_env.pop("relative-images", None)
